@@ -39,6 +39,7 @@ def instances (scenario : String) (n : Nat) : List Instance :=
   | "prep-first" => [cacheI "nonrevCache" (fun _ => 2), cacheI "nonrevCache" (fun t => 1 + t % 2), handoff, cprng]
   | "prep-first-prove" => [cacheI "nonrevCache" (fun t => if t % 2 = 1 then 2 else 0), handoff, rnd, sacc, cprng]
   | "prep-repeat-prove" => [cacheI "nonrevCache" (fun t => t % 2), handoff, rnd, sacc, cprng]
+  | "prep-refresh-prove" => [cacheI "nonrevCache" (fun t => t % 2), handoff, rnd, sacc, cprng]
   | "prove-shared" => [cacheI "nonrevCache" (fun _ => 0), rnd, sacc, cprng]
   | "prove-range" => [cprng]   -- provers sharing a credential read-only; the square splitter keeps no shared state
   | "verify-shared" => [sacc, rnd, cprng]
